@@ -1492,6 +1492,74 @@ impl Login {
     }
 }
 
+/// Histories of two connections in one process, one after the other: the first is ended badly while one of its
+/// clientbound frames is stuck in the transport (blocked after 0, 1 or half of its bytes until the run is cut
+/// off, or refused with an error after 0 or 1 bytes), then a fresh connection is served. Returns
+/// (label, first case, second case, observation of the second alone, observation of the second after the
+/// first). Whatever the first connection left behind anywhere in the process must not reach the second.
+pub fn after_an_aborted_connection(secret: Option<Vec<u8>>) -> Vec<(String, Case, Case, Obs, Obs)> {
+    let mut firsts: Vec<(&str, Case)> = vec![];
+    let mut login = Case::default();
+    login.cfg.auth_secret = secret.clone();
+    login.script = Login { name: "Earlier_One".into(), uuid: 0x0e0e_0e0e_0e0e_4e0e_8e0e_0e0e_0e0e_0e0e, ..Default::default() }.steps();
+    login.adapters.disc_ms = 17_000;
+    firsts.push(("login", login));
+    let mut status = Case::default();
+    status.adapters.status = StatusPlan::Full;
+    status.script = vec![
+        st(When::Idle, Act::Handshake { proto: 769, host: "earlier.example".into(), port: 25565, next: 1 }),
+        st(When::Idle, Act::StatusRequest),
+        st(When::Idle, Act::Ping(0x0e0e)),
+    ];
+    firsts.push(("status", status));
+    let mut seconds: Vec<(&str, Case)> = vec![];
+    let mut l2 = Case::default();
+    l2.cfg.auth_secret = secret;
+    l2.cfg.client_addr = "203.0.113.99:50999".parse().unwrap();
+    l2.script = Login::default().steps();
+    seconds.push(("login", l2));
+    let mut s2 = Case::default();
+    s2.script = vec![
+        st(When::Idle, Act::Handshake { proto: 769, host: "later.example".into(), port: 25565, next: 1 }),
+        st(When::Idle, Act::StatusRequest),
+        st(When::Idle, Act::Ping(42)),
+    ];
+    seconds.push(("status", s2));
+    let mut out = vec![];
+    for (sl, second) in &seconds {
+        let alone = run(second);
+        for (fl, first) in &firsts {
+            let frames = run(first).packets.len();
+            for f in 0..frames {
+                for (how, prog) in [
+                    ("blocked", vec![WStep::Until(1_000_000_000)]),
+                    ("blocked after 1 byte", vec![WStep::Accept(1), WStep::Until(1_000_000_000)]),
+                    ("blocked after 5 bytes", vec![WStep::Accept(5), WStep::Until(1_000_000_000)]),
+                    ("refused", vec![WStep::Fail]),
+                    ("refused after 1 byte", vec![WStep::Accept(1), WStep::Fail]),
+                ] {
+                    let mut c1 = first.clone();
+                    c1.transport.writes.push(WriteDev { frame: f, prog });
+                    c1.horizon_ms = 40_000;
+                    let _ = run(&c1);
+                    let after = run(second);
+                    out.push((format!("{fl} connection whose clientbound frame #{f} is {how}, then a {sl} connection"), c1, second.clone(), alone.clone(), after));
+                }
+            }
+        }
+    }
+    out
+}
+
+/// What of a connection must be the same whether or not another connection was served (and ended badly) before it.
+pub fn differs_from_alone(alone: &Obs, after: &Obs) -> Option<String> {
+    let view = |o: &Obs| (o.kinds().iter().map(|k| k.to_string()).collect::<Vec<_>>(), o.result.kind(), o.garbled.clone(), o.partial_tail, o.consumed, o.calls.iter().map(|c| c.kind()).collect::<Vec<_>>());
+    if view(alone) == view(after) {
+        return None;
+    }
+    Some(format!("alone: {:?} -> {} (garbled {:?}); after the earlier connection: {:?} -> {:?} (garbled {:?}, {} dangling bytes)", alone.kinds(), alone.result.kind(), alone.garbled, after.kinds(), after.result, after.garbled, after.partial_tail))
+}
+
 /// Seeds whose first `R` unbiased-select draws realise every bit pattern.
 pub fn seeds_for_patterns(r: usize) -> Vec<u64> {
     let want = 1usize << r;
